@@ -50,6 +50,48 @@ def run_replay(path, timeout=600):
         return 2, "replay timed out"
 
 
+def run_canaries(prop):
+    """Deliberately broken (and deliberately harmless) variants of /repo, each on a scratch copy under $TMPDIR that is
+    removed afterwards: the quick check must report a violation (resp. hold)."""
+    import shutil
+    import tempfile
+    cans = json.load(open(os.path.join(VERIF, "canaries", prop + ".json")))
+    # the independently seeded changes of this property double as canaries (expect: violation)
+    sd = os.path.join(VERIF, "seeded")
+    for d in sorted(os.listdir(sd)) if os.path.isdir(sd) else []:
+        if d.startswith(prop + "-"):
+            cans.append({"name": "seeded/" + d, "patch": os.path.join(sd, d, "patch.diff"), "expect": "violation"})
+    repo = os.environ.get("PYVC_REPO", "/repo")
+    out = []
+    for c in cans:
+        scratch = tempfile.mkdtemp(prefix="pyvc_canary_")
+        try:
+            shutil.copytree(os.path.join(repo, "onnxscript"), os.path.join(scratch, "onnxscript"), ignore=shutil.ignore_patterns("__pycache__"))
+            if c.get("patch"):
+                pr = subprocess.run(f"patch -p1 -s -f < {c['patch']}", shell=True, cwd=scratch, capture_output=True, text=True)
+                if pr.returncode != 0:
+                    out.append({"name": c["name"], "expect": c["expect"], "exit": None, "ok": True, "skipped": "patch no longer applies to the current source"})
+                    continue
+            else:
+                path = os.path.join(scratch, c["file"])
+                src = open(path).read()
+                if src.count(c["old"]) != 1:
+                    out.append({"name": c["name"], "expect": c["expect"], "exit": None, "ok": True, "skipped": "anchor text not found in the current source (the code under the canary changed)"})
+                    continue
+                open(path, "w").write(src.replace(c["old"], c["new"]))
+            env = dict(os.environ, PYVC_REPO=scratch, PYTHONPATH=scratch, VERIF_TIER="quick")
+            p = subprocess.run([os.path.join(VERIF, "vcheck"), prop, "--no-evidence", "--tier", "quick"], capture_output=True, text=True, env=env)
+            failed = [ln.split()[1] for ln in p.stdout.splitlines() if ln.startswith("FAILED-OBLIGATION")]
+            if c["expect"] == "violation":
+                ok = p.returncode == 1 and (not c.get("obligation") or any(c["obligation"] in f for f in failed))
+            else:
+                ok = p.returncode == 0
+            out.append({"name": c["name"], "expect": c["expect"], "exit": p.returncode, "ok": ok, "failed_obligations": failed[:4]})
+        finally:
+            shutil.rmtree(scratch, ignore_errors=True)
+    return out
+
+
 def main(argv=None):
     ap = argparse.ArgumentParser()
     ap.add_argument("prop")
@@ -188,6 +230,15 @@ def main(argv=None):
     for sc, err in crashes:
         print(f"CHECKER-ERROR {sc}: {err[-1500:]}")
 
+    # ---- thorough tier: engine self-test with the committed canaries (scratch copies; /repo is never written) -----
+    canary_report = []
+    if args.tier == "thorough" and not args.only:
+        if not os.path.exists(os.path.join(VERIF, "canaries", prop + ".json")):
+            json.dump([], open(os.path.join(VERIF, "canaries", prop + ".json"), "w"))
+        canary_report = run_canaries(prop)
+        for c in canary_report:
+            if not c["ok"]:
+                crashes.append((f"canary {c['name']}", f"expected {c['expect']}, check exited {c['exit']} — the engine did not behave as required on a deliberately changed copy"))
     wall = time.time() - t0
     if not args.no_evidence:
         ev = {
@@ -206,6 +257,7 @@ def main(argv=None):
                 "reachability_covers": sorted(set(covered)),
                 "unmodelled": notes,
                 "extra": getattr(pm, "EVIDENCE_EXTRA", {}),
+                "canaries": canary_report,
             },
             "assumptions": assumptions + [f"unchecked: {n}" for n in notes],
             "wall_s": round(wall, 2),
